@@ -41,9 +41,9 @@ def run(ctx):
     ctx.cov["alternative_models"] = alt
 
     # 2. behaviours: sampled by TLC (-simulate, seeded); the model's invariants are checked on them too
-    vecs = simulate(ctx, "SampleTrack_Sim200", 40 if quick else 200, 205)
+    vecs = simulate(ctx, "SampleTrack_Sim200", 40 if quick else 150, 205)
     if not quick:
-        vecs += simulate(ctx, "SampleTrack_Sim5000", 10, 5005)
+        vecs += simulate(ctx, "SampleTrack_Sim5000", 8, 5005)
     for i, v in enumerate(vecs):
         v["id"] = i
     nsamples = sum(len(v["samples"]) for v in vecs)
